@@ -64,7 +64,7 @@ def r06_1(ctx):
     n = 0
     # (a) publication helper of the vector
     for f in vec_pub:
-        b = f.built
+        b = inl(F, f)
         for loc, rv in message_aggs(b):
             n += 1
             e = b.expr_of_op(rv["ops"][rv["fields"].index("state")])
@@ -74,7 +74,7 @@ def r06_1(ctx):
             ctx.verdict(ok if ok else None, "R06.1", f, "state=contents", b.line_at(loc), "message.state = self.values.clone()")
     # (b) direct mutators: mutation dominates publication
     for f in c05.mutators(F, "vector::ObservableVector<"):
-        b = f.built
+        b = inl(F, f, *vec_pub)
         muts = c05.values_mutations(b)
         pubs = [(blk, t) for blk, t in b.calls() if F.local_callee(f, t) in vec_pub]
         for pblk, pt in pubs:
@@ -93,7 +93,7 @@ def commit_state(ctx):
     for f in F.find(crate=IM, name="commit"):
         if not (f.raw.get("self_ty") or "").startswith("vector::transaction::ObservableVectorTransaction<"):
             continue
-        b = f.built
+        b = inl(F, f)
         assigns = [loc for loc, s in b.iter_stmts() if s["k"] == "assign" and place_fields(s["place"])[-2:] == ["inner", "values"]]
         takes = [(blk, len(b.blocks[blk]["stmts"])) for blk, t in b.calls(r"^std::mem::(take|replace|swap)$") if strip(b.expr_of_op(t["args"][0]))[0] == "field"
                  and place_chain(strip(b.expr_of_op(t["args"][0])))[-1:] == ["values"] and "inner" not in place_chain(strip(b.expr_of_op(t["args"][0])))]
@@ -174,21 +174,38 @@ def r06_3(ctx):
             n += 1
             # the site itself, or - for a closure body - the place where the closure is created
             site_fn, site_blk = f, loc[0]
+            found = None
             if f.kind == "closure":
                 parent = F.fns.get(f.crate + "::" + f.raw["parent"])
-                found = None
                 if parent and parent.built:
                     for ploc, ps in parent.built.iter_stmts():
                         if ps["k"] == "assign" and ps["rv"]["k"] == "agg" and ps["rv"].get("def") == f.path:
                             found = (parent, ploc[0])
-                if found:
-                    site_fn, site_blk = found
+            elif f.name != "poll_next":
+                # a named helper: the place where it is called or handed to a combinator as a function item
+                for g in F.find(crate=IM):
+                    gb = g.built
+                    if not gb or g is f:
+                        continue
+                    for blk, t in gb.calls():
+                        if F.local_callee(g, t) is f or any(a["k"] == "const" and a.get("fn") == f.path for a in t["args"]):
+                            found = (g, blk)
+            if found:
+                site_fn, site_blk = found
             sb = site_fn.built
             facts = conds.bare(conds.dominating_facts(sb, site_blk))
+            if not any(x[0] == "variant" and x[2] == frozenset(["Lagged"]) for x in facts) and site_fn.name != "poll_next":
+                # the site itself sits in a helper: look at where that helper is used from the stream
+                rootp = [g for g in F.find(crate=IM, name="poll_next") if "VectorSubscriber" in (g.raw.get("self_ty") or "")]
+                for g in rootp:
+                    ib = inl(F, g, find_lag_handler(F))
+                    for blk, t in ib.calls():
+                        if any(a["k"] == "const" and a.get("fn") == f.path for a in t["args"]) or F.local_callee(g, t) is f:
+                            facts = facts + conds.bare(conds.dominating_facts(ib, blk))
             lag = any(x[0] == "variant" and x[2] == frozenset(["Lagged"]) for x in facts)
             ctx.verdict(lag, "R06.3", root_fn(F, f), "reset-only-on-lag", b.line_at(loc), "Reset is built under the Lagged edge (bb%d of %s)" % (site_blk, site_fn.name),
                         "a VectorDiff::Reset is produced on a path that is not a Lagged receive: a subscriber within capacity would be reset")
-    ctx.floor("R06.3", n, 3)
+    ctx.floor("R06.3", n, 2)
 
 
 def r06_4(ctx, lag):
@@ -269,7 +286,8 @@ def r06_5(ctx):
     for f in F.find(crate=IM, name="poll_next"):
         if "VectorSubscriberBatchedStream" not in (f.raw.get("self_ty") or ""):
             continue
-        b = f.built
+        msg_helpers = [g for g in F.find(crate=IM) if (g.raw.get("self_ty") or "").startswith("vector::OneOrManyDiffs<")]
+        b = inl(F, f, find_lag_handler(F), *msg_helpers)
         trs = b.calls(r"broadcast::Receiver::<.*>::try_recv$")
         if not trs:
             ctx.undecided("R06.5", f, "batch-catches-up", f.loc(), "no try_recv drain loop in the batched stream")
